@@ -48,12 +48,15 @@ def run(idx: ProgramIndex, rep: Report, tier: str):
     rep.rule("C04-2", "the fantasy path writes only to objects it created (effect confinement)")
     rep.rule("C04-3", "old data/noise are concatenated before new; the joint prior is split at num_train with consistent block types")
     rep.rule("C04-4", "get_fantasy_likelihood returns a copy of the likelihood")
+    rep.rule("C04-5", "access-path agreement: what the copy stores at path P as old ++ new takes its old part from the source's path P")
     fns = fantasy_functions(idx)
     rep.floor("C04-2", "functions on the fantasy path", len(fns), 10)
     for fi in fns:
         pairing(idx, fi, rep)
         confinement(idx, fi, rep)
         concatenations(idx, fi, rep)
+        path_agreement(idx, fi, rep)
+    rep.floor("C04-5", "stores of old ++ new on the copy", len([o for o in rep.obligations if o.rule == "C04-5"]), 4)
     strategy_blocks(idx, rep)
     likelihood_copies(idx, rep)
     rep.assume("exception safety is outside the statement: a deepcopy that raises (e.g. non-leaf cached tensors) leaves the source with nulled attributes, but then no fantasy model was created")
@@ -234,6 +237,8 @@ def _data_parts(e: ast.AST):
 def _names_and_self(e: ast.AST, sn: str):
     names, has_self = set(), False
     for part in _data_parts(e):
+        if isinstance(part, ast.Name) and part.id == sn:
+            has_self = True  # an alias of the source object itself
         for x in ast.walk(part):
             if isinstance(x, ast.Name):
                 names.add(x.id)
@@ -314,6 +319,150 @@ def concatenations(idx: ProgramIndex, fi: FuncInfo, rep: Report):
             rep.add("C04-3", inst, where, ok, "old part first, new part second" if ok else "the new data are concatenated before the old data (`%s` is derived from the call arguments, `%s` from the source): every split at num_train selects the wrong block" % (src(a)[:40], src(b)[:40]), {"first": sa, "second": sb})
         else:
             rep.observe("C04-3", inst, where, "operands have provenance (%s, %s): not an old/new concatenation (e.g. upper/lower halves of the updated cache)" % (sa, sb))
+
+
+# ---- C04-5 ---------------------------------------------------------------------------------------------------------
+def _defs_of(fi: FuncInfo, name: str) -> List[ast.AST]:
+    """data expressions bound to the local `name` anywhere in fi (flow-insensitive): assignment values, iteration sources
+    (zip-positional), comprehension sources"""
+    out: List[ast.AST] = []
+    for n in ast.walk(fi.node):
+        pairs = []
+        if isinstance(n, ast.Assign) and len(n.targets) == 1:
+            t = n.targets[0]
+            if isinstance(t, ast.Tuple) and isinstance(n.value, ast.Tuple) and len(t.elts) == len(n.value.elts):
+                pairs += list(zip(t.elts, n.value.elts))
+            else:
+                pairs.append((t, n.value))
+        if isinstance(n, (ast.For, ast.comprehension)):
+            it = n.iter
+            if isinstance(it, ast.Call) and (chain(it.func) or "").split(".")[-1] in ("zip", "length_safe_zip") and isinstance(n.target, ast.Tuple) and len(n.target.elts) == len(it.args):
+                pairs += list(zip(n.target.elts, it.args))
+            else:
+                pairs.append((n.target, it))
+        for t, v in pairs:
+            if isinstance(t, ast.Name) and t.id == name:
+                out.append(v)
+    return out
+
+
+def _read_paths(fi: FuncInfo, e: ast.AST, roots: Set[str], seen: Tuple[str, ...] = ()) -> Set[Optional[Tuple[str, ...]]]:
+    """attribute paths, relative to the source object (self or its deep copy), from which the data of `e` are read.
+    None stands for 'not a plain path' (a computed value)."""
+    out: Set[Optional[Tuple[str, ...]]] = set()
+    for part in _data_parts(e):
+        if isinstance(part, ast.Name):
+            if part.id in roots:
+                out.add(())
+                continue
+            if part.id in seen:
+                continue  # x = x.expand(...) re-binding
+            defs = _defs_of(fi, part.id)
+            if not defs:
+                out.add(None)
+            for d in defs:
+                out |= _read_paths(fi, d, roots, seen + (part.id,))
+        elif isinstance(part, ast.Attribute):
+            for b in _read_paths(fi, part.value, roots, seen):
+                if b == () and fi.cls is not None:
+                    # a property of the source object: look through it (an alias property is the path it returns)
+                    m = fi.cls.lookup(part.attr)
+                    if m is not None and m.kind == "property":
+                        rets = [r.value for r in ast.walk(m.node) if isinstance(r, ast.Return) and r.value is not None]
+                        for r in rets:
+                            out |= _read_paths(m, r, {m.params[0]}, ())
+                        continue
+                out.add(None if b is None else b + (part.attr,))
+        elif isinstance(part, ast.Subscript):
+            out |= _read_paths(fi, part.value, roots, seen)
+        else:
+            out.add(None)
+    return out
+
+
+def _ctor_field(idx: ProgramIndex, fi: FuncInfo, call: ast.Call, kw: str) -> Optional[str]:
+    """attribute under which constructor `call` stores its keyword `kw` (None if `call` is not a known constructor)"""
+    r = idx.resolve_expr(fi.module, call.func)
+    if not isinstance(r, ClassInfo):
+        return None
+    init = r.lookup("__init__")
+    if init is None:
+        return None
+    sn = init.params[0]
+    for n in ast.walk(init.node):
+        if isinstance(n, ast.Assign) and len(n.targets) == 1 and isinstance(n.targets[0], ast.Attribute) and isinstance(n.targets[0].value, ast.Name) and n.targets[0].value.id == sn \
+                and isinstance(n.value, ast.Name) and n.value.id == kw:
+            return n.targets[0].attr
+    raise AnalysisError("%s: constructor %s does not store its `%s` argument under an attribute (unknown form)" % (fi.qualname, r.qualname, kw))
+
+
+def _cats_behind(idx: ProgramIndex, fi: FuncInfo, v: ast.AST, suffix: Tuple[str, ...] = (), seen: Tuple[str, ...] = ()) -> List[Tuple[ast.Call, Tuple[str, ...]]]:
+    """torch.cat calls that produce the data of `v`, each with the attribute suffix added by constructors on the way"""
+    out: List[Tuple[ast.Call, Tuple[str, ...]]] = []
+    for part in _data_parts(v):
+        if isinstance(part, ast.Call) and chain(part.func) == "torch.cat":
+            out.append((part, suffix))
+        elif isinstance(part, ast.Name) and part.id not in seen:
+            for d in _defs_of(fi, part.id):
+                out += _cats_behind(idx, fi, d, suffix, seen + (part.id,))
+        elif isinstance(part, ast.Call):
+            for k in part.keywords:
+                if k.arg and any(isinstance(x, ast.Call) and chain(x.func) == "torch.cat" for x in ast.walk(k.value)):
+                    f = _ctor_field(idx, fi, part, k.arg)
+                    if f is not None:
+                        out += _cats_behind(idx, fi, k.value, suffix + (f,), seen)
+    return out
+
+
+def path_agreement(idx: ProgramIndex, fi: FuncInfo, rep: Report):
+    sn = fi.params[0]
+    fresh = _fresh_locals(idx, fi)
+    copies = set()
+    for n in ast.walk(fi.node):
+        if isinstance(n, ast.Assign) and isinstance(n.value, ast.Call) and (chain(n.value.func) or "").split(".")[-1] == "deepcopy" and n.value.args and src(n.value.args[0]) == sn and isinstance(n.targets[0], ast.Name):
+            copies.add(n.targets[0].id)
+    if not copies:
+        return
+    old, new = _provenance(fi)
+    old |= copies
+    roots = {sn} | copies
+    for n in walk_no_nested(fi.node):
+        if not (isinstance(n, ast.Assign) and len(n.targets) == 1 and isinstance(n.targets[0], ast.Attribute)):
+            continue
+        t = n.targets[0]
+        base = chain(t.value)
+        if base not in copies:
+            continue
+        for cat, suffix in _cats_behind(idx, fi, n.value):
+            if not (cat.args and isinstance(cat.args[0], (ast.List, ast.Tuple)) and len(cat.args[0].elts) == 2):
+                continue
+            a, b = cat.args[0].elts
+            sides = (_side(a, old, new, sn), _side(b, old, new, sn))
+            if set(sides) != {"OLD", "NEW"}:
+                continue
+            o = a if sides[0] == "OLD" else b
+            wpath = (t.attr,) + suffix
+            # a property with a setter: the store lands where the getter reads (normalise the write path through the getter)
+            m = fi.cls.lookup(t.attr) if fi.cls is not None else None
+            if m is not None and m.kind == "property":
+                g = set()
+                for r in ast.walk(m.node):
+                    if isinstance(r, ast.Return) and r.value is not None:
+                        g |= _read_paths(m, r.value, {m.params[0]}, ())
+                if len(g) == 1 and None not in g:
+                    wpath = next(iter(g)) + suffix
+            rpaths = _read_paths(fi, o, roots)
+            inst = "%s:%s:%s.%s" % (fi.module.name, fi.qualname, "<copy>", ".".join(wpath))
+            k = len([o for o in rep.obligations if o.rule == "C04-5" and o.instance.split("#")[0] == inst])
+            if k:
+                inst += "#%d" % (k + 1)
+            where = "%s:%d" % (fi.module.relpath, n.lineno)
+            ok = rpaths == {wpath}
+            shown = sorted("<computed>" if p is None else "." + ".".join(p) for p in rpaths)
+            rep.add("C04-5", inst, where, ok,
+                    "old part read from the source's .%s" % ".".join(wpath) if ok else
+                    "the copy's .%s is built from old ++ new, but the old part `%s` is read from %s of the source, not from .%s: the carried quantity is not the one the copy stores" % (
+                        ".".join(wpath), src(o)[:40], ", ".join(shown), ".".join(wpath)), {"read": shown})
 
 
 def strategy_blocks(idx: ProgramIndex, rep: Report):
